@@ -14,15 +14,18 @@ from vcheck import Case, gz, gzlist, gnat, gnlist, gnmat, gbool
 
 PROP = "W4S"
 LEVEL = "proof"
-GEN_UNITS = ["GenSolver", "GenHosvd", "GenCpAls", "GenTuckerAls", "GenCpAprMu"]
-COQ_TARGETS = ["Props/W4SC13.vo", "Props/W4SC10.vo", "Props/W4SC10b.vo", "Props/W4SC09.vo", "Props/W4SC11.vo", "Model/W4SHarness.vo"]
-THEOREM_FILES = ["Props/W4SC13.v", "Props/W4SC10.v", "Props/W4SC10b.v", "Props/W4SC09.v", "Props/W4SC11.v"]
+GEN_UNITS = ["GenSolver", "GenHosvd", "GenCpAls", "GenTuckerAls", "GenCpAprMu", "GenSampler", "GenHosvdFull", "GenCpAlsPre"]
+COQ_TARGETS = ["Props/W4SC13.vo", "Props/W4SC10.vo", "Props/W4SC10b.vo", "Props/W4SC09.vo", "Props/W4SC11.vo", "Props/W4SC13b.vo", "Props/W4SC10c.vo", "Props/W4SC09b.vo", "Model/W4SHarness.vo"]
+THEOREM_FILES = ["Props/W4SC13.v", "Props/W4SC10.v", "Props/W4SC10b.v", "Props/W4SC09.v", "Props/W4SC11.v", "Props/W4SC13b.v", "Props/W4SC10c.v", "Props/W4SC09b.v"]
 COQ_IMPORTS = ("From Coq Require Import List ZArith Bool.\n"
-               "From PV Require Import Model.W4SHarness.\n")
+               "From PV Require Import Model.W4SHarness Model.W4SPreludeZ Gen.GenSampler.\n")
 RULE = ("solve: SGD/Adam on 2x2..3x2x2 problems, rates 1e-3..30 (failing epochs), max_fails 0..2, max_iters 0..5, epoch_iters 0..3, "
         "tolerances; hosvd: dense integer data incl. exactly low-rank, scaled by 2^-30..2^30, tolerances 1e-8..0.9, given / automatic "
         "/ mixed ranks, both truncation modes, all mode orders; cp_als: small dense data, maxiters 0..6, stoptol 0..1, printitn 0/1/2, "
-        "fixsigns, mode orders and optdims subsets. non-trivial = at least one loop iteration is executed")
+        "fixsigns, mode orders and optdims subsets; GCPSampler: dense / sparse tensors of 6 .. 10^9 entries (incl. no nonzeros, no zeros, "
+        "a zero-length mode), every sampler kind and None on both sides, counts None / int (0, negative, bool) / StratifiedCount / a float, "
+        "max_iters 0 .. 1000, every math.ceil call recorded and replayed. non-trivial = at least one loop iteration is executed / the "
+        "constructor computes a default or rejects")
 EXPLANATION = ("The generated skeletons keep every control-flow decision of the source (loop bounds, stop rules, rollback, trace "
                "writes and slices, rank cut-off); all numerics are Section parameters. Theorems are stated for ALL instantiations of "
                "the parameters; the stream instantiates them with the answers recorded from the real run.")
@@ -131,6 +134,154 @@ def gen_cases(rng, tier):
         a = {"shape": list(shp), "data": data, "R": R, "init": init, "maxiters": rng.choice([1, 2, 3, 5]),
              "maxinner": rng.choice([1, 2, 3, 10]), "stoptol": rng.choice([1e-6, 1e-3, 0.01, 0.1, 0.5]), "printitn": rng.choice([0, 0, 1])}
         cases.append(Case("sk_mu", a, True))
+    cases += _sampler_cases(rng, big)
+    cases += _hosvd_full_cases(rng, big)
+    cases += _cpals_pre_cases(rng, big)
+    return cases
+
+
+def _cpals_pre_cases(rng, big):
+    """prologue of cp_als: valid calls of every init kind + each rejected class (rank 0, dimorder / optdims malformed, unsupported init,
+    nvecs on a sumtensor, ktensor guess with wrong ndims / ncomponents / factor shape)"""
+    cases = []
+    shapes = [(2, 2), (2, 3), (3, 2, 2), (3, 3), (4, 2)]
+    for k in range(180 if big else 70):
+        shp = rng.choice(shapes)
+        N = len(shp)
+        rank = rng.choice([1, 2, 2])
+        order = list(range(N))
+        rng.shuffle(order)
+        dimorder = rng.choice([None, order])
+        optdims = rng.choice([None, None, sorted(rng.sample(range(N), rng.randint(1, N))), order[:rng.randint(1, N)]])
+        kind = rng.choice(["random", "random", "nvecs", "ktensor", "ktensor"])
+        if kind == "ktensor":
+            init = ["k", [[s_, rank] for s_ in shp]]
+        else:
+            init = ["s", rng.choice([kind, kind, kind.upper(), kind.capitalize()])]
+        sumt = False
+        bad = None
+        if rng.random() < 0.45:
+            bad = rng.choice(["rank0", "order_dup", "order_range", "order_short", "opt_dup", "opt_range", "init_name", "init_other", "nvecs_sum",
+                              "k_ndims", "k_ncomp", "k_shape", "random_sum"])
+            if bad == "rank0":
+                rank = 0
+                if init[0] == "k":
+                    init = ["k", [[s_, 1] for s_ in shp]]
+            elif bad == "order_dup":
+                dimorder = list(order)
+                dimorder[0] = dimorder[-1]
+            elif bad == "order_range":
+                dimorder = list(order)
+                dimorder[rng.randrange(N)] = N
+            elif bad == "order_short":
+                dimorder = order[:-1]
+            elif bad == "opt_dup":
+                optdims = [order[0], order[0]]
+            elif bad == "opt_range":
+                optdims = [0, N]
+            elif bad == "init_name":
+                init = ["s", rng.choice(["foo", "", "randomm", "nvec"])]
+            elif bad == "init_other":
+                init = ["o"]
+            elif bad == "nvecs_sum":
+                init, sumt = ["s", "nvecs"], True
+            elif bad == "random_sum":          # accepted: a sumtensor with a random start
+                init, sumt = ["s", "random"], True
+            elif bad == "k_ndims":
+                shp2 = list(shp) + [2] if rng.random() < 0.5 else list(shp)[:-1]
+                init = ["k", [[s_, rank] for s_ in shp2]] if shp2 else ["k", [[2, rank]]]
+            elif bad == "k_ncomp":
+                init = ["k", [[s_, rank + 1] for s_ in shp]]
+            elif bad == "k_shape":
+                fs = [[s_, rank] for s_ in shp]
+                fs[rng.randrange(N)][0] += 1
+                init = ["k", fs]
+        a = {"shape": list(shp), "rank": rank, "dimorder": dimorder, "optdims": optdims, "init": init, "sum": sumt, "bad": bad}
+        cases.append(Case("sk_cpals_pre", a, True))
+    return cases
+
+
+def _hosvd_full_cases(rng, big):
+    """the whole function hosvd: the mode-loop classes of sk_hosvd (own draws) + malformed ranks / dimorder requests"""
+    cases = []
+    shapes = [(2, 2), (2, 3), (3, 2), (2, 3, 2), (3, 3, 2), (4, 2), (2, 2, 2), (3, 1, 2), (4,)]
+    for k in range(90 if big else 30):
+        shp = rng.choice(shapes)
+        d = len(shp)
+        n = math.prod(shp)
+        data = [rng.randint(-4, 9) for _ in range(n)] if rng.random() < 0.7 else [rng.choice([0, 0, 0, 1, 5]) for _ in range(n)]
+        data[0] = data[0] or 3
+        order = list(range(d))
+        rng.shuffle(order)
+        rk = rng.choice(["auto", "auto", "given", "mixed"])
+        ranks = None if rk == "auto" else [(rng.randint(1, s) if (rk == "given" or rng.random() < 0.5) else 0) for s in shp]
+        a = {"shape": list(shp), "data": data, "tol": rng.choice([1e-8, 1e-4, 0.01, 0.1, 0.3, 0.5, 0.9]),
+             "dimorder": rng.choice([None, order]), "sequential": rng.random() < 0.6, "ranks": ranks, "dscale": rng.choice([0, 0, -30, 7]),
+             "malformed": None}
+        cases.append(Case("sk_hosvd_full", a, True))
+    for k in range(36 if big else 14):
+        shp = rng.choice(shapes[:8])
+        d = len(shp)
+        n = math.prod(shp)
+        data = [rng.randint(1, 9) for _ in range(n)]
+        ranks = [rng.randint(1, s) for s in shp]
+        order = list(range(d))
+        rng.shuffle(order)
+        kind = rng.choice(["ranks_long", "ranks_short", "order_dup", "order_range", "order_short", "order_long"])
+        dimorder = rng.choice([None, order])
+        if kind == "ranks_long":
+            ranks = ranks + [1]
+        elif kind == "ranks_short":
+            ranks = ranks[:-1]
+        elif kind == "order_dup":
+            dimorder = list(order)
+            dimorder[0] = dimorder[-1]
+        elif kind == "order_range":
+            dimorder = list(order)
+            dimorder[rng.randrange(d)] = d
+        elif kind == "order_short":
+            dimorder = order[:-1]
+        else:
+            dimorder = order + [order[0]]
+        a = {"shape": list(shp), "data": data, "tol": 0.1, "dimorder": dimorder, "sequential": rng.random() < 0.5, "ranks": ranks, "dscale": 0,
+             "malformed": kind}
+        cases.append(Case("sk_hosvd_full", a, True))
+    return cases
+
+
+_SMP_TENSORS = [(False, [2, 3], 3), (True, [2, 3], 5), (True, [2, 3], 0), (True, [2, 3], 6), (False, [15, 10, 10], 1500),
+                (True, [1000, 1000, 1000], 1500), (True, [1000, 1000, 1000], 120000), (True, [40, 50], 2000), (False, [120, 100, 100], 7),
+                (False, [0, 3], 0), (False, [2, 3], 0)]          # (an sptensor with a zero-length mode cannot be constructed)
+_SMP_KINDS = [None, "UNIFORM", "STRATIFIED", "SEMISTRATIFIED"]
+_SMP_REQS = [None, None, 4, 0, -2, True, [2, 3], [0, 1], [7, 0], 2.5]
+
+
+def _sampler_cases(rng, big):
+    cases = []
+    tensors = list(_SMP_TENSORS) + ([(False, [300, 200, 200], 12000000), (True, [700, 30], 20990)] if big else [])
+    # every row of the table once per tensor class (the other side all defaults), then random pairs
+    for (sparse, shape, nnz) in tensors[:5] if not big else tensors:
+        for side in ("f", "g"):
+            for kind in _SMP_KINDS:
+                for req in [None, 4, [2, 3], 2.5]:
+                    a = {"sparse": sparse, "shape": shape, "nnz": nnz, "max_iters": rng.choice([1000, 7, 1]), "fkind": None, "freq": None,
+                         "gkind": None, "greq": None}
+                    a[side + "kind"], a[side + "req"] = kind, req
+                    cases.append(Case("sk_sampler", a, True))
+    for k in range(400 if big else 120):
+        sparse, shape, nnz = rng.choice(tensors)
+        if rng.random() < 0.7:          # mostly accepted requests (a request rejected on one side hides the other side)
+            fk = rng.choice([None, "STRATIFIED"] if sparse else [None, "UNIFORM"])
+            gk = rng.choice([None, "STRATIFIED", "SEMISTRATIFIED", "UNIFORM"] if sparse else [None, "UNIFORM", "SEMISTRATIFIED"])
+            ints, cnts = [None, None, 4, 0, -2, True], [None, None, 4, 0, True, [2, 3], [0, 1], [7, 0]]
+            a = {"sparse": sparse, "shape": shape, "nnz": nnz, "max_iters": rng.choice([1000, 1000, 7, 3, 1]),
+                 "fkind": fk, "freq": rng.choice(ints if (fk or ("STRATIFIED" if sparse else "UNIFORM")) == "UNIFORM" else cnts),
+                 "gkind": gk, "greq": rng.choice(ints if (gk or ("STRATIFIED" if sparse else "UNIFORM")) == "UNIFORM" else cnts)}
+        else:
+            a = {"sparse": sparse, "shape": shape, "nnz": nnz, "max_iters": rng.choice([1000, 1000, 7, 3, 1, 0]),
+                 "fkind": rng.choice(_SMP_KINDS + [None]), "freq": rng.choice(_SMP_REQS), "gkind": rng.choice(_SMP_KINDS + [None]),
+                 "greq": rng.choice(_SMP_REQS)}
+        cases.append(Case("sk_sampler", a, True))
     return cases
 
 
@@ -312,15 +463,143 @@ def _run_mu(a):
             "ntimes": int(len(out["times"])), "keys": sorted(out.keys())}
 
 
+_SMP_DATA = {}
+
+
+def _sampler_data(np, ttb, sparse, shape, nnz):
+    key = (sparse, tuple(shape), nnz)
+    if key not in _SMP_DATA:
+        size = math.prod(shape)
+        step = max(1, size // max(nnz, 1))
+        lin = np.arange(nnz, dtype=np.int64) * step
+        if sparse:
+            if nnz:
+                subs = np.array(np.unravel_index(lin, tuple(shape), order="F")).T.copy()
+                X = ttb.sptensor(subs, np.ones((nnz, 1)), tuple(shape))
+            else:
+                X = ttb.sptensor(shape=tuple(shape))
+        else:
+            arr = np.zeros(size)
+            arr[lin] = 1.0
+            X = ttb.tensor(arr.reshape(tuple(shape), order="F"))
+        if len(_SMP_DATA) > 3:
+            _SMP_DATA.clear()
+        _SMP_DATA[key] = X
+    return _SMP_DATA[key]
+
+
+def _sampler_readback(fn):
+    """what the constructor stored, read back from the object: partial keywords / the lambda's closure cells"""
+    import functools
+    if isinstance(fn, functools.partial):
+        kw, name = fn.keywords, fn.func.__name__
+        if fn.args:
+            return ["bad", "positional arguments"]
+        if name == "uniform" and sorted(kw) == ["samples"] and isinstance(kw["samples"], int):
+            return ["uniform", int(kw["samples"])]
+        if name == "stratified" and sorted(kw) == ["num_nonzeros", "num_zeros", "nz_idx", "over_sample_rate"]:
+            return ["stratified", int(kw["num_nonzeros"]), int(kw["num_zeros"])]
+        if name == "semistrat" and sorted(kw) == ["num_nonzeros", "num_zeros"]:
+            return ["semistrat", int(kw["num_nonzeros"]), int(kw["num_zeros"])]
+        return ["bad", name]
+    cells = dict(zip(fn.__code__.co_freevars, [c.cell_contents for c in (fn.__closure__ or ())]))
+    if not {"exp_nonzeros", "exp_zeros"} <= set(cells):
+        return ["bad", "closure " + ",".join(sorted(cells))]
+    en, ez = Fraction(float(cells["exp_nonzeros"])), Fraction(float(cells["exp_zeros"]))
+    return ["poisson", [en.numerator, en.denominator], [ez.numerator, ez.denominator]]
+
+
+def _run_sampler(a):
+    import numpy as np
+    import pyttb as ttb
+    from pyttb.gcp import samplers
+    X = _sampler_data(np, ttb, a["sparse"], a["shape"], a["nnz"])
+    size, nnz, mi = int(np.prod(X.shape)), int(X.nnz), a["max_iters"]
+
+    def req(r):
+        return samplers.StratifiedCount(num_nonzeros=r[0], num_zeros=r[1]) if isinstance(r, list) else r
+
+    def kind(k):
+        return None if k is None else getattr(samplers.Samplers, k)
+    quotients = [(nnz, 100), (size, 10), (3 * nnz, mi), (10 * size, mi)]
+    calls, unknown = [], []
+    o_ceil = samplers.ceil
+
+    def w_ceil(x):          # math.ceil of a float quotient: which of the source's four quotients, and the answer
+        r = o_ceil(x)
+        hit = [(n, d) for n, d in quotients if d != 0 and n / d == x]
+        if hit:
+            calls.append([hit[0][0], hit[0][1], int(r)])
+        else:
+            unknown.append(float(x))
+        return r
+    samplers.ceil = w_ceil
+    try:
+        try:
+            g = samplers.GCPSampler(X, function_sampler=kind(a["fkind"]), function_samples=req(a["freq"]), gradient_sampler=kind(a["gkind"]),
+                                    gradient_samples=req(a["greq"]), max_iters=mi)
+        finally:
+            samplers.ceil = o_ceil
+    except (ValueError, ZeroDivisionError) as ex:
+        return {"exc": type(ex).__name__, "msg": str(ex)[:120], "raised": True, "size": size, "nnz": nnz, "calls": calls, "unknown": unknown}
+    crng = [int(x) for x in g.crng]
+    return {"f": _sampler_readback(g._fsampler), "g": _sampler_readback(g._gsampler), "crng_len": len(crng),
+            "crng": crng if len(crng) <= 64 else None, "crng_is_arange": crng == list(range(len(crng))),
+            "size": size, "nnz": nnz, "calls": calls, "unknown": unknown}
+
+
+def _run_cpals_pre(a):
+    import contextlib
+    import io
+    import warnings
+    import numpy as np
+    import pyttb as ttb
+    shp = tuple(a["shape"])
+    n = math.prod(shp)
+    X = ttb.tensor(np.arange(1, n + 1, dtype=float).reshape(shp, order="F"))
+    if a["sum"]:
+        X = ttb.sumtensor([X, X.copy()])
+    it = a["init"]
+    if it[0] == "k":
+        init = ttb.ktensor([np.full((r, c), 0.5) + np.arange(r * c, dtype=float).reshape((r, c)) / 8 for r, c in it[1]])
+    elif it[0] == "s":
+        init = it[1]
+    else:
+        init = 3.5
+    draws, nv = [], []
+    o_uniform, o_nvecs = np.random.uniform, ttb.tensor.nvecs
+
+    def w_uniform(lo, hi, size=None):
+        draws.append([int(x) for x in size])
+        return o_uniform(lo, hi, size)
+
+    def w_nvecs(self_, n_, r_, *args, **kw):
+        nv.append([int(n_), int(r_)])
+        return o_nvecs(self_, n_, r_, *args, **kw)
+    np.random.uniform, ttb.tensor.nvecs = w_uniform, w_nvecs
+    try:
+        with contextlib.redirect_stdout(io.StringIO()), warnings.catch_warnings():
+            warnings.simplefilter("ignore")
+            M, Minit, out = ttb.cp_als(X, a["rank"], maxiters=0, dimorder=a["dimorder"], optdims=a["optdims"], init=init, printitn=0)
+    finally:
+        np.random.uniform, ttb.tensor.nvecs = o_uniform, o_nvecs
+    return {"order": [int(x) for x in out["params"]["dimorder"]], "optdims": [int(x) for x in out["params"]["optdims"]], "draws": draws,
+            "nvecs": nv, "same": bool(Minit is init), "minit_shapes": [list(f.shape) for f in Minit.factor_matrices]}
+
+
 def run_impl(c):
     try:
+        if c.op == "sk_cpals_pre":
+            return _run_cpals_pre(c.args)
+        if c.op == "sk_sampler":
+            return _run_sampler(c.args)
         if c.op == "sk_mu":
             return _run_mu(c.args)
         if c.op == "sk_tucker":
             return _run_tucker(c.args)
         if c.op == "sk_solve":
             return _run_solve(c.args)
-        if c.op == "sk_hosvd":
+        if c.op in ("sk_hosvd", "sk_hosvd_full"):
             return _run_hosvd(c.args)
         if c.op == "sk_cpals":
             return _run_cpals(c.args)
@@ -378,8 +657,53 @@ def coq_check(c, o):
         d = len(a["shape"])
         return (f"zsk_hosvd_ok {_pairs_nat_zlist(o['Ds'], z)} {_pairs_zlist_nlist(o['pis'], z)} {gnlist(order)} {gnlist(o['ranks_in'])} "
                 f"{gz(z(Fraction(o['thresh'])))} {gbool(a['sequential'])} {gnlist(o['ranks_obs'])} {gnmat(o['cols'])}")
+    if c.op == "sk_cpals_pre":
+        shp, rank = a["shape"], a["rank"]
+        N = len(shp)
+
+        def optl(l):
+            return "None" if l is None else f"(Some {gnlist(l)})"
+        it = a["init"]
+        if it[0] == "k":          # the shape test of the source, evaluated by the harness on the request
+            badm = [m for m in range(min(N, len(it[1]))) if tuple(it[1][m]) != (shp[m], rank)]
+            zi = f"(ZK {gnat(len(it[1]))} {gnat(it[1][0][1])} {gnlist(badm)} 7)"
+        elif it[0] == "s":
+            zi = f"(ZStr {dict(random=0, nvecs=1).get(it[1].lower(), 2)})"
+        else:
+            zi = "ZOther"
+        head = f"({gnat(N)}, {gbool(a['sum'])}) {gnat(rank)} {optl(a['dimorder'])} {optl(a['optdims'])} {zi}"
+        if "exc" in o:
+            return f"zsk_cpals_pre_raises {head}" if o["exc"] == "AssertionError" else "false"
+        if it[0] == "k":
+            obs = zi if o["same"] else "ZOther"
+        elif o["draws"]:
+            obs = "(ZBuilt " + gnlist([100 + k if d_ == [shp[k] if k < N else -1, rank] else 999 for k, d_ in enumerate(o["draws"])]) + ")"
+        else:
+            obs = "(ZBuilt " + gnlist([200 + n_ if r_ == rank else 999 for n_, r_ in o["nvecs"]]) + ")"
+        if it[0] != "k" and o["minit_shapes"] != [[s_, rank] for s_ in shp]:
+            return "false"
+        return f"zsk_cpals_pre_ok {head} {gnlist(o['order'])} {gnlist(o['optdims'])} {obs} {gnat(len(o['draws']))}"
+    if c.op == "sk_hosvd_full":
+        d = len(a["shape"])
+
+        def optl(l):
+            return "None" if l is None else f"(Some {gnlist(l)})"
+        if "exc" in o:
+            # a malformed request must be rejected by the argument checks (given ranks >= 1: the loop itself cannot fail on the empty tables)
+            if a["malformed"] and o["exc"] == "ValueError":
+                return f"zsk_hosvd_full_raises (@nil (nat * list Z)) (@nil (list Z * list nat)) {gnat(d)} {optl(a['dimorder'])} {optl(a['ranks'])} 0%Z {gbool(a['sequential'])}"
+            return "false"
+        if a["malformed"]:
+            return "false"
+        if o["tie"]:
+            return None
+        z = _scale([Fraction(v) for _, D in o["Ds"] for v in D] + [Fraction(o["thresh"])])
+        return (f"zsk_hosvd_full_ok {_pairs_nat_zlist(o['Ds'], z)} {_pairs_zlist_nlist(o['pis'], z)} {gnat(d)} {optl(a['dimorder'])} {optl(a['ranks'])} "
+                f"{gz(z(Fraction(o['thresh'])))} {gbool(a['sequential'])} {gnlist(o['ranks_obs'])} {gnmat(o['cols'])}")
     if c.op == "sk_cpals":
         if "exc" in o:
+            if o["exc"] == "LinAlgError":
+                return None          # singular normal equations (rank-deficient data, R above the unfolding rank): the solve kernel raises — outside the skeleton
             return "false"
         if o["tie"]:
             return None
@@ -408,6 +732,42 @@ def coq_check(c, o):
         z = _scale(fr)
         return (f"zsk_mu_ok {_glz([z(Fraction(x)) for x in o['kkts']])} {gnat(len(a['shape']))} {gnat(a['maxiters'])} {gnat(a['maxinner'])} "
                 f"{gz(z(_fr(a['stoptol'])))} {_glz([z(Fraction(x)) for x in o['kkt_obs']])} {gnlist(o['ninner'])} {gnat(o['ntotal'])} {gnat(o['ntimes'])}")
+    if c.op == "sk_sampler":
+        if o.get("unknown") or ("exc" in o and not o.get("raised")):
+            return "false"
+        calls = "(@nil (Z * Z * Z))" if not o["calls"] else "[" + "; ".join(f"({gz(n)}, {gz(d)}, {gz(r)})" for n, d, r in o["calls"]) + "]"
+
+        def kd(k):
+            return "None" if k is None else f"(Some Samplers_{k})"
+
+        def rq(r):
+            if r is None:
+                return "SkNone"
+            if isinstance(r, (bool, int)):
+                return f"(SkInt {gz(int(r))})"
+            if isinstance(r, list):
+                return f"(SkObj {{| StratifiedCount_num_zeros := {gz(r[1])}; StratifiedCount_num_nonzeros := {gz(r[0])} |}})"
+            return "SkOther"
+        head = (f"{calls} ({gbool(a['sparse'])}, {gz(o['size'])}, {gz(o['nnz'])}) {kd(a['fkind'])} {rq(a['freq'])} {kd(a['gkind'])} {rq(a['greq'])} "
+                f"{gz(a['max_iters'])}")
+        if "exc" in o:
+            return f"zsk_sampler_raises {head}"
+
+        def ob(c_):
+            if c_[0] == "uniform":
+                return f"(OUniform {gz(c_[1])})"
+            if c_[0] == "stratified":
+                return f"(OStratified {gz(c_[1])} {gz(c_[2])})"
+            if c_[0] == "semistrat":
+                return f"(OSemistrat {gz(c_[1])} {gz(c_[2])})"
+            if c_[0] == "poisson":
+                return f"(OPoisson ({gz(c_[1][0])}, {gz(c_[1][1])}) ({gz(c_[2][0])}, {gz(c_[2][1])}))"
+            return None
+        fo, go = ob(o["f"]), ob(o["g"])
+        if fo is None or go is None or not o["crng_is_arange"]:
+            return "false"
+        ent = "None" if o["crng"] is None else f"(Some {gzlist(o['crng'])})"
+        return f"zsk_sampler_ok {head} {fo} {go} {gz(o['crng_len'])} {ent}"
     if c.op == "sk_tucker":
         d = len(a["shape"])
         order = list(range(d)) if a["dimorder"] is None else a["dimorder"]
@@ -433,6 +793,27 @@ def coq_check(c, o):
 def oracle(c, o):
     """brute force on pyttb's own observations: does the statement of C13 / C10 / C09 about the control flow hold? (pure Python)"""
     a = c.args
+    if c.op == "sk_sampler":
+        # C13 about the defaults: no default count exceeds what the tensor holds (pure Python on the read-back)
+        if "exc" in o:
+            return None
+        for side, conf in (("f", o["f"]), ("g", o["g"])):
+            if a[side + "req"] is not None:
+                continue
+            if conf[0] == "uniform" and not (0 <= conf[1] <= o["size"]):
+                return f"default uniform count {conf[1]} outside 0..{o['size']}"
+            if conf[0] in ("stratified", "semistrat") and not (0 <= conf[1] <= o["nnz"] and 0 <= conf[2] <= o["size"] - o["nnz"]):
+                return f"default stratified counts {conf[1:]} exceed nonzeros {o['nnz']} / zeros {o['size'] - o['nnz']}"
+        return None
+    if c.op == "sk_cpals_pre":
+        rejected = a["bad"] not in (None, "random_sum")
+        if rejected != (o.get("exc") == "AssertionError") or ("exc" in o and o["exc"] != "AssertionError"):
+            return f"request class {a['bad']}: outcome {o.get('exc', 'returned')}"
+        return None
+    if c.op == "sk_hosvd_full" and ("exc" in o or a["malformed"]):
+        return None if (a["malformed"] and o.get("exc") == "ValueError") else f"malformed={a['malformed']} outcome={o.get('exc', 'returned')}"
+    if c.op == "sk_cpals" and o.get("exc") == "LinAlgError":
+        return None
     if "exc" in o or o.get("skip"):
         return None if (a.get("epoch_iters") == 0 or (c.op == "sk_tucker" and a["maxiters"] == 0)) else (f"raised {o.get('exc')}: {o.get('msg')}" if "exc" in o else None)
     if c.op == "sk_solve":
@@ -445,7 +826,7 @@ def oracle(c, o):
         if len(trace) - 1 > a["max_iters"]:
             return "more epochs than max_iters"
         return None
-    if c.op == "sk_hosvd":
+    if c.op in ("sk_hosvd", "sk_hosvd_full"):
         th = Fraction(o["thresh"])
         for (k, D), (_, p) in zip(o["Ds"], o["pis"]):
             if o["ranks_in"][k] != 0:
